@@ -54,9 +54,9 @@ class Harness:
             self.violations.append({'key': key, 'what': what, 'case': jsonable(case_fn(m))})
         return False
 
-    def fail(self, key, what, case_fn):
+    def fail(self, key, what, case_fn, robust=()):
         """the path itself is the violation (e.g. an escaping exception)"""
-        return self.claim(False, key, what, case_fn)
+        return self.claim(False, key, what, case_fn, robust=robust)
 
     def witness(self, case_fn, force=False, extra=()):
         """model of the current path condition -> concrete (inputs, expected)"""
